@@ -30,7 +30,7 @@ claims = {
    technique="stateless model checking of the implementation: preemption-bounded DFS over thread interleavings under a controlled scheduler, linearizability oracle"),
  "C06": dict(level="model_checking", design="4/C06",
    text="Full product {34 read entry points, incl. every ServeHTTP branch and handles that became stale after a commit} x {5 stages at which a write transaction is parked and held open} x {4 option profiles}, each run under the controlled scheduler with the writer lock logically held for the whole execution: the reader must run to completion (a Lock that can never be granted is reported as a deadlock with the blocking operation) and its event log must contain no mutex operation at all; plus converse scenarios (readers parked inside a handler / View / iteration / holding a Lookup context versus writers; two writers) over all interleavings.",
-   note="Blocking is decided by the scheduler, never by a timeout. The statement's static reading (every call path statically reachable from the read entry points) is a call-graph argument outside this technique; the dynamic product covers every exported read entry point.",
+   note="Blocking is decided by the scheduler, never by a timeout; a thread that keeps re-reading unchanged atomic values is disabled until one of them is written, so a busy-wait on a read path is a deadlock report and not a non-terminating run. Commit-then-park and two-reader scenarios: preemption bound 2 (quick) / 6 (thorough). The statement's static reading (every call path statically reachable from the read entry points) is a call-graph argument outside this technique; the dynamic product covers every exported read entry point.",
    technique="exhaustive product of read entry points x parked-writer states under a controlled scheduler with a lock-event monitor; unbounded interleaving exploration for the converse scenarios"),
  "C07": dict(level="model_checking", design="4/C07",
    text="Explicit-state BFS over registration histories; every reachable implementation state (registered set, tree dump) is compared with a fresh router filled in sorted order on probes derived from all pool patterns under 3 option profiles; all insertion permutations of small sets are compared likewise.",
